@@ -256,6 +256,78 @@ func runC13(o *out, thorough bool, r *rng, _ []string) map[string]interface{} {
 		o.run(1301, fs, true)
 		o.count("mass-expiry-histories")
 	}
+	// the transaction a message belongs to is named by its TransactionID FIELD, whatever its Raw holds; and IDs
+	// are 96 bits: families of IDs that collide under every simple fold (XOR or sum of the 32-bit words, a prefix,
+	// a suffix, byte order) are all different transactions
+	{
+		type ev struct {
+			id  [stun.TransactionIDSize]byte
+			err error
+		}
+		var got []ev
+		a := stun.NewAgent(func(e stun.Event) { got = append(got, ev{e.TransactionID, e.Error}) })
+		far := agentBase.Add(time.Hour)
+		bad := ""
+		var zero, x [stun.TransactionIDSize]byte
+		copy(x[:], r.bytes(12))
+		_ = a.Start(zero, far)
+		_ = a.Start(x, far)
+		pm := &stun.Message{Raw: header(0x0101, 0, x[:])} // the ID field is all-zero, the header carries x
+		_ = a.Process(pm)
+		if len(got) != 1 || got[0].id != zero || a.Stop(x) != nil || !errors.Is(a.Stop(zero), stun.ErrTransactionNotExists) {
+			bad = fmt.Sprintf("x Process of a message whose TransactionID field is zero and whose Raw carries %x: events %v", x, got)
+		}
+		for round := 0; round < 40 && bad == ""; round++ {
+			p := r.bytes(4)
+			w := func(a, b, c []byte) (t [stun.TransactionIDSize]byte) {
+				copy(t[0:], a)
+				copy(t[4:], b)
+				copy(t[8:], c)
+				return
+			}
+			z := []byte{0, 0, 0, 0}
+			q := r.bytes(4)
+			xq := []byte{p[0] ^ q[0], p[1] ^ q[1], p[2] ^ q[2], p[3] ^ q[3]}
+			rev := []byte{p[3], p[2], p[1], p[0]}
+			family := [][stun.TransactionIDSize]byte{w(p, z, z), w(z, p, z), w(z, z, p), w(q, xq, z), w(z, q, xq), w(xq, z, q), w(p, p, p), w(rev, z, z), w(z, z, rev),
+				w(p, q, z), w(q, p, z), w(p, q, q), w(p, q, p)}
+			uniq := map[[stun.TransactionIDSize]byte]bool{}
+			var ids [][stun.TransactionIDSize]byte
+			for _, t := range family {
+				if !uniq[t] && t != zero && t != x {
+					uniq[t] = true
+					ids = append(ids, t)
+				}
+			}
+			for _, t := range ids {
+				if err := a.Start(t, far); err != nil {
+					bad = fmt.Sprintf("x Start(%x) among %d distinct related IDs: %v", t, len(ids), err)
+				}
+			}
+			for k, t := range ids {
+				got = got[:0]
+				var err error
+				if k%2 == 0 {
+					err = a.Stop(t)
+				} else {
+					err = a.Process(&stun.Message{TransactionID: t})
+				}
+				if err != nil || len(got) != 1 || got[0].id != t {
+					bad = fmt.Sprintf("x ending %x among %d distinct related IDs: error %v, events %v", t, len(ids), err, got)
+				}
+			}
+			got = got[:0]
+			_ = a.Collect(far.Add(time.Hour))
+			if len(got) != 0 && bad == "" {
+				bad = fmt.Sprintf("x after ending each of %d related IDs, Collect still times out %v", len(ids), got)
+			}
+		}
+		if bad != "" {
+			o.failFor("C13", "not-the-abstract-table", bad)
+		}
+		_ = a.Close()
+		o.count("related-transaction-ids")
+	}
 	// a Stop that lands while a Collect walks a LARGE table (the walk takes milliseconds): the stopped
 	// transaction gets exactly one terminal event, and a Stop that returned nil means it is "stopped"
 	{
